@@ -95,13 +95,16 @@ RunOutput run_sched(const Plan& plan, const RunOpts&)
     const long san0 = sanitizer_reports();
     Scheduler* sched = sched_create(T, plan.policy, plan.policy_p, plan.sched_seed, plan.explicit_schedule ? plan.schedule.data() : nullptr,
                                     (long) plan.schedule.size());
+    sched_set_edge(sched, plan.edge_gap, plan.explicit_schedule ? plan.gaps.data() : nullptr, (long) plan.gaps.size());
     {
         std::vector<std::thread> threads;
         for (int t = 0; t < T; t++)
         {
             threads.emplace_back([&, t]() {
                 sched_task_begin(sched, t);
+                sched_edge_attach(sched, t);
                 run_task(plan.tasks[(size_t) t], owner_of(t), sched, t, con[(size_t) t]);
+                sched_edge_detach();
                 sched_task_end(sched, t);
             });
         }
@@ -146,11 +149,14 @@ RunOutput run_sched(const Plan& plan, const RunOpts&)
     }
     out.stats.add("yields", sched_yields(sched));
     out.stats.add("switches", sched_switches(sched));
+    out.stats.add("edge.yields", sched_edge_yields(sched));
+    out.stats.add("edge.edges_executed", sched_edges_seen(sched));
+    if (plan.edge_gap > 0 || !plan.gaps.empty()) out.stats.add("edge.runs_with_edge_preemption");
     long pm[8][8];
     sched_pair_matrix(sched, pm);
-    static const char* kn[] = {"0", "api_enter", "api_leave", "apply_begin", "apply_end", "checkpoint", "6", "7"};
-    for (int a = 1; a <= 5; a++)
-        for (int b = 1; b <= 5; b++)
+    static const char* kn[] = {"0", "api_enter", "api_leave", "apply_begin", "apply_end", "checkpoint", "edge", "7"};
+    for (int a = 1; a <= 6; a++)
+        for (int b = 1; b <= 6; b++)
             if (pm[a][b]) out.stats.add(std::string("switch_pair.") + kn[a] + ">" + kn[b], pm[a][b]);
     Hasher h;
     for (int t = 0; t < T; t++)
@@ -160,6 +166,8 @@ RunOutput run_sched(const Plan& plan, const RunOpts&)
     out.shape_hash = sched_interleaving_hash(sched);
     out.nontrivial = sched_switches(sched) > 0;
     out.executed_schedule.assign(sched_choices(sched), sched_choices(sched) + sched_nchoices(sched));
+    out.executed_gaps.assign(sched_gaps(sched), sched_gaps(sched) + sched_ngaps(sched));
+    if (sched_overflow(sched)) out.engine_error = "scheduler decision log overflowed its fixed capacity";
     sched_destroy(sched);
     return out;
 }
